@@ -280,6 +280,9 @@ class Sectionable(BaseObject):
                 raise ValueError("Section with name '%s' already exists." % section.name)
 
             _check_not_own_ancestor(self, section)
+            # An object can only be the child of one parent.
+            if section.parent is not None:
+                section.parent.remove(section)
             self._sections.insert(position, section)
             section._parent = self
         else:
@@ -294,6 +297,11 @@ class Sectionable(BaseObject):
         from odml.section import BaseSection
         if isinstance(section, BaseSection):
             _check_not_own_ancestor(self, section)
+            if section.name in self._sections:
+                raise KeyError("Object with the same name already exists! " + str(section))
+            # An object can only be the child of one parent.
+            if section.parent is not None:
+                section.parent.remove(section)
             self._sections.append(section)
             section._parent = self
         elif isinstance(section, Iterable) and not isinstance(section, str):
